@@ -16,6 +16,7 @@
 # limitations under the License.
 # -----------------------------------------------------------------------------
 from __future__ import annotations
+import functools
 import logging
 import os
 import sqlite3
@@ -26,6 +27,23 @@ from ...app_support.security_v2 import self_sign
 from ..signer.sha256_digest_signer import DigestSha256Signer
 from ..tpm.tpm import Tpm
 from .keychain import Keychain, AbstractCertificate, AbstractKey, AbstractIdentity
+
+
+def _rollback_on_error(method):
+    """
+    A failed statement or commit leaves the transaction open. Without a rollback the part of the operation
+    done so far stays pending and is committed by whatever operation commits next.
+    """
+    @functools.wraps(method)
+    def wrapper(self, *args, **kwargs):
+        try:
+            return method(self, *args, **kwargs)
+        except Exception:
+            conn = self.conn if isinstance(self, KeychainSqlite3) else self.pib.conn
+            if conn is not None:
+                conn.rollback()
+            raise
+    return wrapper
 
 
 INITIALIZE_SQL = """
@@ -299,6 +317,7 @@ class Key(AbstractKey):
         cursor.close()
         return ret
 
+    @_rollback_on_error
     def set_default_cert(self, name: NonStrictName):
         """
         Set the default Certificate.
@@ -408,6 +427,7 @@ class Identity(AbstractIdentity):
         cursor.close()
         return ret
 
+    @_rollback_on_error
     def set_default_key(self, name: NonStrictName):
         """
         Set the default Key.
@@ -516,6 +536,7 @@ class KeychainSqlite3(Keychain):
         cursor.close()
         return ret
 
+    @_rollback_on_error
     def set_default_identity(self, name: NonStrictName):
         """
         Set the default Identity.
@@ -541,6 +562,7 @@ class KeychainSqlite3(Keychain):
         cursor.close()
         return Identity(self, row_id, Name.from_bytes(identity), is_default != 0)
 
+    @_rollback_on_error
     def new_identity(self, name: NonStrictName) -> Identity:
         """
         Create a new Identity without a default Key.
@@ -560,6 +582,7 @@ class KeychainSqlite3(Keychain):
             self.set_default_identity(name)
         return self[name]
 
+    @_rollback_on_error
     def touch_identity(self, id_name: NonStrictName) -> Identity:
         """
         Get an Identity with specific name. Create a new one if it does not exist.
@@ -589,6 +612,7 @@ class KeychainSqlite3(Keychain):
         self.conn.close()
         self.conn = None
 
+    @_rollback_on_error
     def del_identity(self, name: NonStrictName):
         """
         Delete a specific Identity.
@@ -646,6 +670,7 @@ class KeychainSqlite3(Keychain):
             self._signer_cache[cache_key] = signer
         return signer
 
+    @_rollback_on_error
     def del_key(self, name: NonStrictName):
         """
         Delete a specific Key.
@@ -665,6 +690,7 @@ class KeychainSqlite3(Keychain):
         self.conn.execute('DELETE FROM keys WHERE key_name=?', (name,))
         self.conn.commit()
 
+    @_rollback_on_error
     def del_cert(self, name: NonStrictName):
         """
         Delete a specific Certificate.
@@ -677,6 +703,7 @@ class KeychainSqlite3(Keychain):
         self.conn.commit()
         self._signer_cache = {}
 
+    @_rollback_on_error
     def new_key(self, id_name: NonStrictName, key_type: str = 'ec', **kwargs) -> Key:
         """
         Generate a new key for a specific Identity.
@@ -725,6 +752,7 @@ class KeychainSqlite3(Keychain):
             identity.set_default_key(key_name)
         return identity[key_name]
 
+    @_rollback_on_error
     def import_cert(self, key_name: NonStrictName, cert_name: NonStrictName, cert_data: BinaryStr):
         key_name = Name.to_bytes(key_name)
         cert_name = Name.to_bytes(cert_name)
